@@ -75,6 +75,25 @@ Proof.
   unfold vof in HsV; cbn in HsV. unfold Q2R in HsV; cbn in HsV. lra.
 Qed.
 
+(** F-C07c: [F = f - f; F.stationary_point()] records a free function value for the zero function:
+    the (empty) weighted sum of its terms' values is 0. *)
+Definition ops_all_cancel : list op :=
+  [NewLeaf true; Combine [(0%nat, 1%Q); (0%nat, (-1)%Q)]; Stationary 1%nat].
+
+Lemma refuted_all_cancel : ops_scoped ops_all_cancel = true /\ ~ inv (run ops_all_cancel).
+Proof.
+  split; [vm_compute; reflexivity|]. intros Hinv.
+  set (s := run ops_all_cancel) in *.
+  assert (HF : (1 < nfun s)%nat) by (vm_compute; lia).
+  assert (Hl : f_leaf (getf s 1%nat) = false) by (vm_compute; reflexivity).
+  assert (Hin : In ([(0%nat, 1%Q)], [], [(KF 0, 1%Q)]) (f_pts (getf s 1%nat)))
+    by (vm_compute; left; reflexivity).
+  destruct (ig_I3 noP s Hinv 1%nat _ HF Hl Hin) as [[]|(ch & _ & _ & HsV)].
+  assert (HW : f_w (getf s 1%nat) = []) by (vm_compute; reflexivity).
+  rewrite HW in HsV. specialize (HsV R1 (fun _ => 0) phi01).
+  unfold vof in HsV; cbn in HsV. unfold Q2R in HsV; cbn in HsV. lra.
+Qed.
+
 (** ** The invariant, clause by clause, in the vocabulary of the property *)
 
 (** weighted combination of the chosen gradients, as a vector of the inner-product space *)
@@ -190,4 +209,110 @@ Proof.
   destruct (find_pt pts x) as [[g v]|] eqn:H.
   - apply find_pt_Some. exact H.
   - apply find_pt_None. exact H.
+Qed.
+
+(** ** What the calls return: a sample recorded for the function at (a point equal to) the query *)
+Lemma nfun_leaf_oracle s i x : nfun (fst (leaf_oracle s i x)) = nfun s.
+Proof.
+  unfold leaf_oracle. destruct (find_pt (f_pts (getf s i)) x) as [[g v]|]; [destruct (f_reuse (getf s i))|];
+    cbn [fst fresh_pt fresh_ex]; rewrite ?nfun_record; reflexivity.
+Qed.
+
+Lemma leaf_oracle_mono s i x j t :
+  In t (f_pts (getf s j)) -> In t (f_pts (getf (fst (leaf_oracle s i x)) j)).
+Proof.
+  intros H. unfold leaf_oracle. destruct (find_pt (f_pts (getf s i)) x) as [[g v]|]; [destruct (f_reuse (getf s i))|];
+    cbn [fst fresh_pt fresh_ex]; try exact H; apply pts_record_mono; exact H.
+Qed.
+
+Lemma nfun_leaf_value s i x : nfun (fst (leaf_value s i x)) = nfun s.
+Proof.
+  unfold leaf_value. destruct (find_pt (f_pts (getf s i)) x) as [[g v]|]; [reflexivity|].
+  pose proof (nfun_leaf_oracle s i x) as H. destruct (leaf_oracle s i x) as [s' [g v]]. exact H.
+Qed.
+
+Lemma nfun_sum_values x : forall W s acc, nfun (fst (sum_values s W x acc)) = nfun s.
+Proof.
+  induction W as [|[i q] W IH]; intros s acc; cbn [sum_values]; [reflexivity|].
+  pose proof (nfun_leaf_value s i x) as H. destruct (leaf_value s i x) as [s' v]. rewrite IH. exact H.
+Qed.
+
+Lemma nfun_sum_grads x : forall W s acc, nfun (fst (sum_grads s W x acc)) = nfun s.
+Proof.
+  induction W as [|[i q] W IH]; intros s acc; cbn [sum_grads]; [reflexivity|].
+  pose proof (nfun_leaf_oracle s i x) as H. destruct (leaf_oracle s i x) as [s' [g v]]. rewrite IH. exact H.
+Qed.
+
+Lemma distribute_mono x : forall l s G V b j t,
+  In t (f_pts (getf s j)) -> In t (f_pts (getf (distribute s x G V b l) j)).
+Proof.
+  induction l as [|[i q] l IH]; intros s G V b j t H; cbn [distribute]; [exact H|].
+  destruct b as [|b].
+  - apply IH. apply pts_record_mono. exact H.
+  - pose proof (leaf_oracle_mono s i x j t H) as H'. destruct (leaf_oracle s i x) as [s' [g v]].
+    apply IH. exact H'.
+Qed.
+
+Lemma comp_add_point_records s F x g v :
+  (F < nfun s)%nat -> In (prune x, prune g, prune v) (f_pts (getf (comp_add_point s F (x, g, v)) F)).
+Proof.
+  intros HF. unfold comp_add_point. cbn [pruned_sample].
+  set (s1 := record s F (x, g, v)).
+  set (s2 := setf s1 F (fun r => mkF (f_leaf r) (f_reuse r) (prune (f_w r)) (f_pts r) (f_stat r))).
+  assert (H2 : In (prune x, prune g, prune v) (f_pts (getf s2 F))).
+  { unfold s2. rewrite getf_setf_eq by (unfold s1; rewrite nfun_record; exact HF). cbn [f_pts].
+    unfold s1. rewrite pts_record_eq by exact HF. apply in_or_app. right. left. reflexivity. }
+  destruct (classify s2 (f_w (getf s2 F)) (prune x)) as [[n go] gv].
+  destruct (is_nil (go ++ gv)); [exact H2|]. apply distribute_mono. exact H2.
+Qed.
+
+Lemma oracle_returns_recorded s f p :
+  (f < nfun s)%nat -> wfq s p ->
+  let s' := fst (oracle s f p) in
+  let g := fst (snd (oracle s f p)) in
+  let v := snd (snd (oracle s f p)) in
+  exists x0, In (x0, g, v) (f_pts (getf s' f)) /\ dict_eqb Nat.eqb x0 p = true.
+Proof.
+  intros Hf Hq. cbv zeta. unfold oracle. destruct (f_leaf (getf s f)).
+  - destruct (leaf_oracle_spec s f p Hf Hq) as (_ & H & _). exact H.
+  - pose proof (wfq_prune s p Hq) as Hpx. destruct Hq as (Np & _ & _).
+    unfold comp_oracle.
+    destruct (find_pt (f_pts (getf s f)) p) as [[g0 v0]|] eqn:Hfp.
+    + destruct (f_reuse (getf s f)).
+      * cbn [fst snd]. apply find_pt_Some. exact Hfp.
+      * cbv zeta. destruct (classify s (f_w (getf s f)) p) as [[n go] gv].
+        match goal with |- context [if ?c then sum_grads ?a ?b ?c' ?d else ?e] =>
+          pose proof (nfun_sum_grads c' b a d) as Hn; destruct c end.
+        -- destruct (sum_grads s (f_w (getf s f)) p []) as [s2 g]. cbn [fst snd] in *.
+           exists (prune p). split; [apply comp_add_point_records; rewrite Hn; exact Hf|].
+           rewrite Hpx. apply peqb_refl, Np.
+        -- cbn [fresh_pt fst snd]. exists (prune p).
+           split; [apply comp_add_point_records; exact Hf|]. rewrite Hpx. apply peqb_refl, Np.
+    + cbv zeta. destruct (classify s (f_w (getf s f)) p) as [[n go] gv].
+      assert (Hs1 : nfun (fst (if is_nil gv then sum_values s (f_w (getf s f)) p []
+                              else let '(v', s'0) := fresh_ex s in (s'0, v'))) = nfun s).
+      { destruct (is_nil gv); [apply nfun_sum_values|reflexivity]. }
+      destruct (if is_nil gv then sum_values s (f_w (getf s f)) p []
+                else let '(v', s'0) := fresh_ex s in (s'0, v')) as [s1 v]. cbn [fst] in Hs1.
+      assert (Hs2 : nfun (fst (if is_nil gv && is_nil go then sum_grads s1 (f_w (getf s f)) p []
+                              else let '(g', s'0) := fresh_pt s1 in (s'0, g'))) = nfun s).
+      { destruct (is_nil gv && is_nil go); [rewrite nfun_sum_grads; exact Hs1|exact Hs1]. }
+      destruct (if is_nil gv && is_nil go then sum_grads s1 (f_w (getf s f)) p []
+                else let '(g', s'0) := fresh_pt s1 in (s'0, g')) as [s2 g]. cbn [fst snd] in *.
+      exists (prune p). split; [apply comp_add_point_records; rewrite Hs2; exact Hf|].
+      rewrite Hpx. apply peqb_refl, Np.
+Qed.
+
+(** [value] returns the value of a recorded sample at the query point; by I1 every other sample recorded
+    there has the same value: "one value however often and through whichever route it is queried" *)
+Lemma value_returns_recorded s f p :
+  (f < nfun s)%nat -> wfq s p ->
+  let s' := fst (value s f p) in
+  let v := snd (value s f p) in
+  exists x0 g, In (x0, g, v) (f_pts (getf s' f)) /\ dict_eqb Nat.eqb x0 p = true.
+Proof.
+  intros Hf Hq. cbv zeta. unfold value. destruct (find_pt (f_pts (getf s f)) p) as [[g0 v0]|] eqn:Hfp.
+  - cbn [fst snd]. destruct (find_pt_Some _ _ _ _ Hfp) as (x0 & H1 & H2). exists x0, g0. auto.
+  - pose proof (oracle_returns_recorded s f p Hf Hq) as H. cbv zeta in H.
+    destruct (oracle s f p) as [s' [g v]]. cbn [fst snd] in *. destruct H as (x0 & H1 & H2). exists x0, g. auto.
 Qed.
